@@ -108,4 +108,37 @@ DivModOk(a, b, d) == NLess(d.r, b) /\ NAdd(NMul(d.q, b), d.r) = a
 NFloorDiv(a, b) == NDivMod32(a, b).q
 NCeilDiv(a, b)  == LET d == NDivMod32(a, b) IN IF d.r = NZero THEN d.q ELSE NAdd(d.q, NOne)
 
+(* ----------------------------------------------------------------------- *)
+(* bits, shifts and IEEE-754 binary64 rounding of an integer               *)
+(* ----------------------------------------------------------------------- *)
+BitLen15(d) == IF d = 0 THEN 0 ELSE CHOOSE k \in 1 .. 15 : d >= 2 ^ (k - 1) /\ d < 2 ^ k
+BitLenI(n)  == IF n \div (NB * NB) # 0 THEN 30 + BitLen15(n \div (NB * NB))          \* 0 <= n < 2^31
+               ELSE IF n \div NB # 0 THEN 15 + BitLen15(n \div NB) ELSE BitLen15(n)
+NBitLen(x) ==                       \* number of significant bits (0 for zero)
+    IF x[5] # 0 THEN 60 + BitLen15(x[5]) ELSE
+    IF x[4] # 0 THEN 45 + BitLen15(x[4]) ELSE
+    IF x[3] # 0 THEN 30 + BitLen15(x[3]) ELSE
+    IF x[2] # 0 THEN 15 + BitLen15(x[2]) ELSE BitLen15(x[1])
+NBit(x, i) == (x[i \div 15 + 1] \div (2 ^ (i % 15))) % 2                             \* bit i, 0 <= i < 75
+
+NShr(x, j) ==                       \* floor(value(x) / 2^j), j >= 0
+    LET a == j \div 15
+        b == j % 15
+    IN  [ i \in 1 .. ND |->
+            (IF i + a <= ND THEN x[i + a] \div (2 ^ b) ELSE 0)
+          + (IF i + a + 1 <= ND THEN (x[i + a + 1] % (2 ^ b)) * (2 ^ (15 - b)) ELSE 0) ]
+
+(* the binary64 nearest to the integer value(x) < 2^67 (round to nearest, ties to even): *)
+(* exact up to 53 significant bits, otherwise the sh = bitlen - 53 <= 14 low bits are rounded away *)
+NRound53(x) ==
+    LET n == NBitLen(x) IN
+    IF n <= 53 THEN x
+    ELSE LET sh   == n - 53
+             w    == 2 ^ sh
+             low  == x[1] % w
+             base == NSub(x, FromInt(low))
+             up   == low > w \div 2 \/ (low = w \div 2 /\ NBit(x, sh) = 1)
+         IN  IF up THEN NAdd(base, FromInt(w)) ELSE base
+
+
 =============================================================================
